@@ -2,6 +2,7 @@
 from .. import sym
 from ..evalfn import SELF, property_backing
 from ..sym import canon
+from . import tree_rules
 from .algo_equiv import check_equiv
 from .common import ALGOS, CORE, G, plain, short
 
@@ -294,3 +295,5 @@ def run(chk):
         check_equiv(chk, rule, ALGOS, cls, "__call__", src, "documented-set", "%s: %s" % (cls, WHAT[cls]))
     select_n_init(chk)
     random_sample(chk)
+    # "never a ticker outside the strategy's universe": what the universe is (declared tickers present in the data, all if none declared)
+    tree_rules.universe_rules(chk, "C19")
